@@ -43,11 +43,7 @@ theorem optLoop_lenient_of_strict (cx : Cx) (isField custom : Bool) (mi : Nat) :
           | some e => simp [he] at h
           | none =>
             simp only [he] at h ⊢
-            cases hp : (interpField cx mi msg st.parts st.val).pan with
-            | some p => simp [hp] at h
-            | none =>
-              simp only [hp] at h ⊢
-              exact ih _ _ _ _ h
+            exact ih _ _ _ _ h
 
 /-- interpOptions with the loop's result named -/
 theorem interpOptions_eq (s : Schema) (m : Mode) (target edition : Nat) (isField custom : Bool) (mi : Nat)
@@ -184,7 +180,7 @@ theorem lenient_eq_strict (s : Schema) (target edition mi : Nat) (fc : Option Fi
     does not touch the options message -/
 theorem unlinked_custom_untouched (s : Schema) (target mi : Nat) (pm : PM) (p : NamePart) (rest : List NamePart) (v : AV)
     (hp : p.isExt = true) :
-    interpField ⟨s, target, false⟩ mi pm (p :: rest) v = ⟨pm, false, some .unkext, none⟩ := by
+    interpField ⟨s, target, false⟩ mi pm (p :: rest) v = ⟨pm, false, some .unkext⟩ := by
   unfold interpField
   simp [resolvePart, hp]
 
@@ -332,7 +328,8 @@ theorem optLoop_pass2_unlinked (s : Schema) (target : Nat) (isField : Bool) (mi 
     | nil => simp [firstIsExt] at ha
     | cons p ps =>
       have hp : p.isExt = true := by simpa [firstIsExt] using ha
-      have hps : isPseudo isField ⟨p :: ps, v⟩ = false := by simp [isPseudo, hp]
+      have hps : isPseudo isField ⟨p :: ps, v⟩ = false := by
+        cases ps <;> simp [isPseudo, hp]
       unfold optLoop
       simp only [ha, bne_self_eq_false, Bool.false_eq_true, if_false, hps, Bool.not_true, Bool.false_and]
       rw [unlinked_custom_untouched s target mi msg p ps v hp]
@@ -448,17 +445,13 @@ theorem optLoop_pass1_std_only (cx : Cx) (mi : Nat) :
         · simp only [hu, if_true] at h
           exact absurd h (fun h => handedOn _ h)
         · simp only [hu, if_false, Bool.false_eq_true, firstErr] at h ⊢
-          cases hpan : (interpField cx mi msg st'.parts st'.val).pan with
-          | some q => simp [hpan] at h
+          cases he : (interpField cx mi msg st'.parts st'.val).err with
+          | some e =>
+            simp only [he] at h
+            exact absurd h (fun h => handedOn _ h)
           | none =>
-            simp only [hpan] at h ⊢
-            cases he : (interpField cx mi msg st'.parts st'.val).err with
-            | some e =>
-              simp only [he] at h
-              exact absurd h (fun h => handedOn _ h)
-            | none =>
-              simp only [he] at h ⊢
-              exact ih l'' _ remain remain0 m' r' hmap' h hall
+            simp only [he] at h ⊢
+            exact ih l'' _ remain remain0 m' r' hmap' h hall
 
 /-- second pass: every standard statement of its input is handed on -/
 theorem optLoop_pass2_hands_on_std (cx : Cx) (lenient isField : Bool) (mi : Nat) :
